@@ -128,6 +128,12 @@ CONTROLS = [
         '    strip_comments: bool,\n    resolve_depth: usize,\n    include_depth: usize,\n) -> Result<(PreprocessedText, Defines), Error> {\n\n    // IEEE1800-2017 Clause 22.4, page 675', '    strip_comments: bool,\n    resolve_depth: usize,\n    mut include_depth: usize,\n) -> Result<(PreprocessedText, Defines), Error> {\n\n    // IEEE1800-2017 Clause 22.4, page 675', 1),
         (PPF, '                let (include, new_defines) =\n                    preprocess_inner(', '                include_depth += 1;\n                let (include, new_defines) =\n                    preprocess_inner(', 1),
         (PPF, '                        resolve_depth,\n                        include_depth + 1).map_err(', '                        resolve_depth,\n                        include_depth).map_err(', 1)]),
+    ('w5-root-fast-path', 'W5', 'syn', 'get_str:slice', [(API,
+        '        let mut beg = None;\n        let mut end = 0;\n        for n in Iter::new(nodes.into()) {', '        if self.text.text().len() > 1 << 20 {\n            return Some(self.text.text());\n        }\n        let mut beg = None;\n        let mut end = 0;\n        for n in Iter::new(nodes.into()) {', 1)]),
+    ('g14-octal-continues-with-binary', 'G14', 'syn', 'octal_value_impl:digit-run-continuation', [(PARSER + 'expressions/numbers.rs',
+        'alt((tag("_"), is_a("01234567xXzZ?")))', 'alt((tag("_"), is_a("01xXzZ?")))', 1)]),
+    ('x1-fast-path-before-pp-parser', 'X1', 'syn', 'preprocess_str:unscanned-exit', [(PPF,
+        '    let mut skip = false;\n', '    if !s.contains(\'`\') && false {\n        return Ok((PreprocessedText::new(), HashMap::new()));\n    }\n    let mut skip = false;\n', 1)]),
     ('x11-include-unguarded', 'X11', 'syn', 'open-unguarded', [(PPF, 'NodeEvent::Enter(RefNode::IncludeCompilerDirective(x)) if !ignore_include => {', 'NodeEvent::Enter(RefNode::IncludeCompilerDirective(x)) => {', 1)]),
     ('x12-search-reversed', 'X12', 'syn', 'search-order', [(PPF, '                    for include_path in include_paths {', '                    for include_path in include_paths.iter().rev() {', 1)]),
     ('p2-utf8-error-without-path', 'P2', 'syn', 'read-error', [(PPF, 'Err(Error::ReadUtf8(PathBuf::from(path.as_ref())))', 'Err(Error::ReadUtf8(PathBuf::new()))', 1)]),
